@@ -259,6 +259,9 @@ class Discharger:
             ok = bool(calls) and all(r is not None and 2 <= r <= 36 for r in radices)
             return ok, "const-arg", "from_str_radix panics only for a radix outside 2..=36; radices used here: %s" % radices
         if kind == "assert" and what == "BoundsCheck":
+            bt = self.bool_index_table(f)
+            if bt is not None:
+                return bt[0], "bounds", bt[1]
             return None, "bounds", "indexing with a run-time index in %s" % fn
         if kind == "assert":
             return None, "assert", "%s in %s" % (what, fn)
@@ -373,6 +376,61 @@ class Discharger:
         if ok2 is not None:
             return ok2, "set-cover", "arms cover %s; %s" % (sorted(have), det2)
         return None, "set-cover", "origin of the matched character in %s not recognised (%s)" % (fn, det2)
+
+    def bool_index_table(self, f):
+        """Every indexing in `f` is `TABLE[usize::from(b)]` / `TABLE[b as usize]` with b a boolean and that dimension of the
+        constant TABLE at least two long.  -> (ok, detail) or None when the indexings are of another kind."""
+        idxs = find_all(f.body, lambda n: n.get("k") == "index")
+        if not idxs:
+            return None
+        ptys = {n_: t_ for n_, t_ in f.params if n_}
+
+        def is_bool(x):
+            x = rx.peel(x)
+            if x.get("k") == "path" and len(x["segs"]) == 1:
+                return ptys.get(x["segs"][0]) == "bool"
+            if x.get("k") == "call" and x["f"].get("k") == "path":
+                r = self.b._resolve_fn_path(x["f"], {"__module": f.module, "__tsubst": {}})
+                g_ = self.f.fns.get(r[0]) if r else None
+                return g_ is not None and norm_ty(g_.node.get("output") or "") == "bool"
+            if x.get("k") == "binary" and x["op"] in ("==", "!=", "<", ">", "<=", ">=", "&&", "||"):
+                return True
+            if x.get("k") == "unary" and x["op"] == "!":
+                return is_bool(x["e"])
+            if x.get("k") == "mcall" and x["m"] in ("is_empty", "is_some", "is_none", "contains", "starts_with", "ends_with"):
+                return True
+            return False
+
+        def dims(e_):
+            """lengths of the nested constant array `e_` denotes, outermost first"""
+            e_ = rx.peel(e_)
+            if e_.get("k") == "index":
+                d = dims(e_["e"])
+                return d[1:] if d else None
+            if e_.get("k") == "path":
+                for k_, it in self.f.consts.items():
+                    if k_.split("::")[-1] == e_["segs"][-1]:
+                        out, cur = [], it["e"]
+                        while isinstance(cur, dict) and rx.peel(cur).get("k") == "array":
+                            cur = rx.peel(cur)
+                            out.append(len(cur["elems"]))
+                            if not cur["elems"]:
+                                break
+                            cur = cur["elems"][0]
+                        return out
+            return None
+
+        for ix in idxs:
+            i0 = rx.peel(ix["idx"])
+            arg = None
+            if i0.get("k") == "call" and i0["f"].get("k") == "path" and i0["f"]["segs"][-2:] in (["usize", "from"],) and len(i0["args"]) == 1:
+                arg = i0["args"][0]
+            elif i0.get("k") == "cast" and norm_ty(i0["ty"]) == "usize":
+                arg = i0["e"]
+            d = dims(ix["e"])
+            if arg is None or not is_bool(arg) or not d or d[0] < 2:
+                return None
+        return True, "every index in %s is a boolean converted to 0/1 into a constant table whose indexed dimension has at least two entries" % f.key
 
     def finite_domain_free(self, f):
         """A method whose only input is `self` of an enum with field-less variants has finitely many inputs: it is
